@@ -67,12 +67,22 @@ Receive(pc, inc, hasDid) ==
 \* tlsAuthenticator.Authenticate
 Authenticate(ac) ==
     /\ phase = "idle"
-    /\ phase' = "done"
+    /\ phase' = IF ac = "cert_matches" THEN "authed" ELSE "done"
     /\ authed' = (ac = "cert_matches")
     /\ Log([a |-> "Authenticate", case |-> ac, expect |-> IF ac = "cert_matches" THEN "authenticated" ELSE "refused"])
     /\ UNCHANGED <<sent, stored>>
 
+\* the same peer (same certificate) connects again after the DID document of the claimed node DID has changed:
+\* every authentication is decided on the CURRENT document
+Reauthenticate(ac) ==
+    /\ phase = "authed"
+    /\ phase' = "done"
+    /\ authed' = (ac = "cert_matches")
+    /\ Log([a |-> "Reauthenticate", case |-> ac, expect |-> IF ac = "cert_matches" THEN "authenticated" ELSE "refused"])
+    /\ UNCHANGED <<sent, stored>>
+
 Next ==
+    \/ \E ac \in AuthCase : Reauthenticate(ac)
     \/ \E pc \in PeerClass, ks \in KeySit, tc \in TxClass, rq \in Request : Serve(pc, ks, tc, rq)
     \/ \E pc \in PeerClass, inc \in Incoming, hd \in BOOLEAN : Receive(pc, inc, hd)
     \/ \E ac \in AuthCase : Authenticate(ac)
@@ -85,5 +95,5 @@ PrivatePayloadConfined ==
 Confined2 == \A i \in 1..Len(hist) :
     (hist[i].a = "Serve" /\ hist[i].tx = "private" /\ hist[i].expect = "payload")
         => (hist[i].req = "PayloadQuery" /\ hist[i].peer = "auth_listed" /\ hist[i].key = "can_decrypt")
-Emit == (Hist /\ phase = "done") => PrintT(ToJson(hist))
+Emit == (Hist /\ phase \in {"done", "authed"}) => PrintT(ToJson(hist))
 =============================================================================
